@@ -219,7 +219,8 @@ class C20:
         # (session 3) two more environment dimensions, drawn last from the env stream so that everything above is unchanged:
         #  - the encoding of the process's stdout (a terminal or pipe under LANG=C cannot take the arrow of the progress line);
         #  - input files whose non-ASCII text is NOT in Unicode normal form C (decomposed accents, Angstrom/Ohm signs).
-        env2 = {'stdout': 'utf-8' if erng.random() < 0.85 else erng.choice(['ascii', 'latin-1']), 'nonnfc_inputs': erng.random() < 0.15}
+        env2 = {'stdout': 'utf-8' if erng.random() < 0.85 else erng.choice(['ascii', 'latin-1']), 'nonnfc_inputs': erng.random() < 0.15,
+                'logging': 'DEBUG' if erng.random() < 0.08 else 'default'}
         return {'property': self.PROPERTY, 'config': 'fault_injecting' if faulty else 'fault_free', 'class': klass, 'fs': fsplan, 'cwd': cwd,
                 'docs': docs, 'ops': ops, 'env2': env2}
 
@@ -254,6 +255,11 @@ class C20:
 
     # ================================================================ execution
     def execute(self, plan):
+        from simkit.envknobs import debug_logging
+        with debug_logging((plan.get('env2') or {}).get('logging') == 'DEBUG'):     # the application logs at DEBUG
+            return self._execute(plan)
+
+    def _execute(self, plan):
         import kernpy as kp
         from pathlib import Path
         log = EventLog()
